@@ -265,6 +265,24 @@ theorem c12_provider_seq (g : Graph) (cfg : Cfg) (root fuel : Nat) (s' : WSt)
     | none => rw [hf] at this; simp at this
     | some od => exact (a c od hf).elim id (fun h => h.elim)
 
+/-- A failing provider is only logged: which CIDs `StartProviding` fails for has no influence on the
+sequential walk (outcome, visits, callbacks, announcements) nor on any event of the parallel walk — hence on
+no reachable state, result or visited set under any schedule. -/
+theorem c12_provider_error_ignored (g : Graph) (cfg : Cfg) (f : Nat → Bool) :
+    (∀ fuel c d s, seqWalk g { cfg with provFail := f } fuel c d s = seqWalk g cfg fuel c d s) ∧
+    (∀ s i, pstep g { cfg with provFail := f } s i = pstep g cfg s i) ∧
+    (∀ root conc s, PReach g { cfg with provFail := f } root conc s ↔ PReach g cfg root conc s) := by
+  refine ⟨fun fuel => (seq_provFail g cfg f fuel).1, pstep_provFail g cfg f, fun root conc s => ?_⟩
+  constructor
+  · intro h
+    induction h with
+    | init => exact PReach.init
+    | step _ hs ih => exact PReach.step ih (by rw [← pstep_provFail g cfg f]; exact hs)
+  · intro h
+    induction h with
+    | init => exact PReach.init
+    | step _ hs ih => exact PReach.step ih (by rw [pstep_provFail g cfg f]; exact hs)
+
 /-- FetchGraph (no SkipRoot, depth-aware visitor): when it returns nil, the blocks fetched — the visited
 CIDs — are exactly those at shortest distance ≤ the limit from the root (all reachable ones for a negative
 limit), for every worker count and schedule. -/
